@@ -253,6 +253,28 @@ def check(ctx):
         ctx.check(n_app == 1 and rec == by_name, "C16.R4", f"{sb.qualname}:emitter-shape", e.node, f"the emitter appends {n_app} time(s) and recurses into {sorted(rec)} (name buckets: {sorted(by_name)})", sb, e.node, detail="append once; recurse into every name bucket")
         order_ok = [norm(n.iter.value) if isinstance(n, ast.For) else "append" for n in e.node.body if isinstance(n, ast.For) or (isinstance(n, ast.Expr) and "result.append" in norm(n))]
         ctx.check(order_ok == ["before", "append", "after"], "C16.R4", f"{sb.qualname}:emitter-order", e.node, f"emission order is {order_ok}: elements marked before= must precede and after= must follow their target", sb, e.node, detail="before, element, after")
+    # ---------------- R8: "declaration order" is the order of the resolved annotations
+    ctx.rule("C16.R8", "the field list an object hook hands to the views follows the order of the resolved annotations (`types`), in which regular fields and InitVar pseudo-fields are interleaved as declared: sort_by_order takes the incoming sequence for the declaration order", floor=3)
+    ov = model.cls("apischema.objects.visitor.ObjectVisitor")
+    for hook in ("dataclass", "named_tuple", "typed_dict"):
+        m_ = ov.methods.get(hook)
+        ctx.require(m_ is not None, f"ObjectVisitor.{hook} vanished")
+        tparam = m_.params[2]
+        calls8 = [c for c in ast.walk(m_.node) if isinstance(c, ast.Call) and norm(c.func) == "self._override_fields" and len(c.args) == 2]
+        ctx.require(len(calls8) == 1, f"ObjectVisitor.{hook}: self._override_fields(tp, <fields>) not found")
+        arg = calls8[0].args[1]
+        src = arg
+        if isinstance(arg, ast.Name):
+            defs8 = [a.value for a in walk_no_nested(m_.node) if isinstance(a, ast.Assign) and norm(a.targets[0]) == arg.id]
+            src = defs8[-1] if defs8 else arg
+            multi = len(defs8) > 1
+        else:
+            multi = False
+        ok8 = isinstance(src, ast.ListComp) and norm(src.generators[0].iter) in (tparam, f"{tparam}.items()", f"{tparam}.keys()") and not multi
+        ctx.check(ok8, "C16.R8", f"{m_.qualname}:order", None,
+                  f"the fields are listed by `{short(src, 60)}`" + (" (then rebuilt)" if multi else "") + f", not by iterating over `{tparam}`: regular fields come first and init variables after them, whatever their place in the class - the deserialization schema, the GraphQL input type and object_fields() show another order than the declared one, and elements attached with order(after=<init var>) move with it",
+                  m_, calls8[0], detail=f"[... for name in {tparam} ...]")
+
     # ---------------- R7: an ordered dataclass is not handed to the JSON library as it is
     ctx.rule("C16.R7", "PassThroughOptions(dataclasses=True): a dataclass is passed through untouched only when ordering left its fields in declaration order - the test compares each sorted field with the declared one (identity), a bare truth test of the field object is always true", floor=1)
     so_ = model.func("apischema.serialization.SerializationMethodVisitor.object")
@@ -323,6 +345,7 @@ def check(ctx):
 
 
 def mutants(mb):
+    mb.add_text("dataclass-fields-by-group", "apischema/objects/visitor.py", "        object_fields = [\n            by_name[name]\n            for name in types\n            if name in by_name and by_name[name].kind != self._field_kind_filtered\n        ]\n", "        object_fields = [f for f in by_name.values() if f.kind != self._field_kind_filtered]\n", "C16.R8", "dataclass")
     mb.add_text("dataclass-passthrough-ignores-order", "apischema/serialization/__init__.py", "            and all(f is f2.field for f, f2 in zip(base_fields, fields_to_order))\n", "            and all(f2.field for f, f2 in zip(base_fields, fields_to_order))\n", "C16.R7", "declaration-order")
     mb.add_text("resolver-serialized-order-dropped", "apischema/graphql/resolvers.py", "                    order=order,\n                    owner=owner,\n                )(func)", "                    owner=owner,\n                )(func)", "C16.R6", "order")
     O = "apischema/ordering.py"
